@@ -167,6 +167,56 @@ pub fn label_numbers(dbg: &str) -> Option<(usize, usize)> {
 }
 
 
+/// Pointers for word-at-a-time ("SWAR") scanning mistakes: tokens that start with, consist of, or end in a byte that differs from a
+/// structural byte ('/', '~', '0', '1', '-') by one bit or by one - the bytes the classic zero-byte tricks confuse with it - repeated
+/// until the text spans several 8 / 32 / 64-byte blocks, at every alignment 0..8 of the first such token.  All valid pointers.
+pub fn swar_pointers() -> Vec<String> {
+    let neigh: [char; 18] = ['.', '-', '+', '\'', '?', 'o', '0', '\u{7f}', '|', 'z', 'v', 'n', '^', '>', '}', '1', '2', ' '];
+    let mut v = Vec::new();
+    for c in neigh {
+        for pad in 0..8usize {
+            let head: String = if pad == 0 { String::new() } else { format!("/{}", "a".repeat(pad - 1)) };
+            v.push(format!("{head}{}", format!("/{c}xy").repeat(11)));
+            v.push(format!("{head}{}", format!("/{c}").repeat(24)));
+            v.push(format!("{head}{}", format!("/ab{c}").repeat(11)));
+        }
+    }
+    v
+}
+
+/// Pairs of long pointers that differ in TWO (or four) places by the same byte change at the same offset modulo 8 / 16 / 32 inside
+/// one block (fixed-width tokens, the same edit in tokens i and j): the differences a block comparison folded with xor cancels.
+pub fn periodic_pairs() -> Vec<(String, String)> {
+    let mut v = Vec::new();
+    for width in [7usize, 15, 3] {
+        let tok0 = format!("{}0", "k".repeat(width - 1));
+        let tok1 = format!("{}1", "k".repeat(width - 1));
+        let n = 96 / (width + 1) + 2;
+        for pad in 0..8usize {
+            let head: String = if pad == 0 { String::new() } else { format!("/{}", "p".repeat(pad - 1)) };
+            let base: Vec<&str> = vec![tok0.as_str(); n];
+            for i in 0..n.min(6) {
+                for d in 1..=4usize {
+                    let js: Vec<usize> = vec![i, i + d, i + 2 * d, i + 3 * d];
+                    for take in [2usize, 4] {
+                        if js[take - 1] >= n {
+                            continue;
+                        }
+                        let mut q = base.clone();
+                        for &j in &js[..take] {
+                            q[j] = tok1.as_str();
+                        }
+                        let pb: String = format!("{head}{}", base.iter().map(|t| format!("/{t}")).collect::<String>());
+                        let pq: String = format!("{head}{}", q.iter().map(|t| format!("/{t}")).collect::<String>());
+                        v.push((pb, pq));
+                    }
+                }
+            }
+        }
+    }
+    v
+}
+
 /// Deterministic texts "beyond the small scope" (DESIGN 13.3): (1) every ASCII byte and a few multi-byte characters
 /// directly after / before the bytes the crate treats specially, alone and inside / across an aligned 8-byte word;
 /// (2) filler texts whose length is around a power of two with one interesting fragment placed at the start, the
